@@ -23,7 +23,7 @@ import (
 )
 
 func main() {
-	harness.Main("C14", "exploration", harness.Layer{Name: "streams", Run: layerStreams})
+	harness.Main("C14", "exploration", harness.Layer{Name: "streams", Run: layerStreams}, harness.Layer{Name: "idle", Run: layerIdle})
 }
 
 // ---------------------------------------------------------------------------------
@@ -99,6 +99,8 @@ func runStream(l *lane, s script) *trace {
 		for i, h := range s.Handler {
 			pause(at(s.HandlerDelay, i))
 			switch h.Op {
+			case "idle":
+				time.Sleep(idleGap)
 			case "recv":
 				req, err := srv.Receive()
 				tr.mu.Lock()
@@ -522,6 +524,54 @@ func layerStreams(h *harness.H) {
 	wg.Wait()
 }
 
+// layerIdle: WebSocket streams whose handler stays quiet for longer than the router's
+// write deadline between sends.
+func layerIdle(h *harness.H) {
+	h.AddRule("idle: handler scripts with 1-2 gaps of 1.15 s (router write deadline 1 s) before sends of 0-900 B, 1.1-4 KiB and 4-32 KiB, then return(nil | error kind); run over http-json and http-msgpack at once; same offline checker (every response the handler sent is delivered, terminal result matches the handler's)")
+	const nLanes = 6
+	t, err := openTransports(nLanes)
+	if err != nil {
+		panic(err)
+	}
+	defer t.Close()
+	n := h.N(12, 400)
+	var wg sync.WaitGroup
+	cases := make(chan int, nLanes)
+	for w := 0; w < nLanes; w++ {
+		wg.Add(1)
+		go func(w int) {
+			defer wg.Done()
+			for c := range cases {
+				s := genIdleScript(h.Rand("idle", c))
+				var iw sync.WaitGroup
+				for _, name := range []string{"http-json", "http-msgpack"} {
+					iw.Add(1)
+					go func(name string) {
+						defer iw.Done()
+						l := t.lanes[name+"/deadline"][w]
+						h.Eval()
+						tr := runStream(l, s)
+						if tr.openErr != nil {
+							h.Inconclusive("open-failed:" + name)
+							return
+						}
+						h.Count("idle_gaps_longer_than_the_write_deadline", strings.Count(fmt.Sprint(s.Handler), "idle"))
+						judge(h, "idle", c, name+":after-idle", l, s, tr, false)
+					}(name)
+				}
+				iw.Wait()
+			}
+		}(w)
+	}
+	for c := 0; c < n; c++ {
+		if !h.Skip("idle", c) {
+			cases <- c
+		}
+	}
+	close(cases)
+	wg.Wait()
+}
+
 func runCase(h *harness.H, t *transports, w, c int) {
 	r := h.Rand("streams", c)
 	s := genScript(r)
@@ -533,7 +583,7 @@ func runCase(h *harness.H, t *transports, w, c int) {
 			h.Inconclusive("open-failed:" + name)
 			continue
 		}
-		judge(h, c, name, l, s, tr, true)
+		judge(h, "streams", c, name, l, s, tr, true)
 	}
 	if c < 2 {
 		h.Sample(map[string]any{"case": c, "script": s, "shape": s.shape()})
@@ -555,7 +605,7 @@ func firstOfSignature(sig string) bool {
 	return true
 }
 
-func judge(h *harness.H, c int, name string, l *lane, s script, tr *trace, first bool) []finding {
+func judge(h *harness.H, layer string, c int, name string, l *lane, s script, tr *trace, first bool) []finding {
 	tr.mu.Lock()
 	events := len(tr.cliSent) + len(tr.cliRecv) + len(tr.srvRecv) + len(tr.srvSent) + len(tr.cliPost) + 2
 	nData := 0
@@ -621,7 +671,7 @@ func judge(h *harness.H, c int, name string, l *lane, s script, tr *trace, first
 			}
 			wit["reproduced_in_5_reruns"] = again
 		}
-		h.Violation("streams", c, sig, f.What, wit)
+		h.Violation(layer, c, sig, f.What, wit)
 	}
 	return fs
 }
